@@ -35,7 +35,7 @@ def plan(tier, seed):
         [R.INTEGER64, R.UNSIGNED64, R.REAL64],
         ["strings"],
     ]
-    n_random = 2000 if tier == "quick" else 50000
+    n_random = 2000 if tier == "quick" else 300000
     return [{"types": g, "n_random": n_random} for g in groups]
 
 
